@@ -30,3 +30,125 @@ def sampled_values_get():
             && forall|j: int| 0 <= j < i ==> !(#[trigger] self.entries[j]).ids@.contains(sample_id),''',
                 loops=[dict(kind='for', it='it_1', inv='''invariant
                 forall|j: int| 0 <= j < it_1.index@ ==> !(#[trigger] self.entries[j]).ids@.contains(sample_id),''')])
+
+
+# ---------------------------------------------------------------- C15: best feasible
+BEST_SPEC = '''// objective value recorded for a sample: the value of the first entry that lists the id (SampledValues::get)
+pub open spec fn sv_get(e: Seq<v1::sampled_values::SampledValuesEntry>, k: int, id: u64) -> Option<F64> decreases e.len() - k {
+    if k < 0 || k >= e.len() { None } else if e[k].ids@.contains(id) { Some(e[k].value) } else { sv_get(e, k + 1, id) }
+}
+pub open spec fn obj_of(s: v1::SampleSet, id: u64) -> Option<F64> { match s.objectives { Some(o) => sv_get(o.entries@, 0, id), None => None } }
+pub open spec fn objs_fin(s: v1::SampleSet, ids: Seq<u64>) -> bool { forall|j: int| 0 <= j < ids.len() ==> obj_of(s, #[trigger] ids[j]) is Some && obj_of(s, ids[j])->Some_0@ is Fin }
+// `a` is at least as good as `b` under the sense code (1 minimise, 2 maximise)
+// feasibility tables (messages written by older releases have no `feasible_relaxed` table)
+pub open spec fn rel_table(s: v1::SampleSet) -> Map<u64, bool> { if s.feasible_relaxed@.len() == 0 { s.feasible@ } else { s.feasible_relaxed@ } }
+pub open spec fn unrel_table(s: v1::SampleSet) -> Map<u64, bool> { if s.feasible_relaxed@.len() == 0 { s.feasible_unrelaxed@ } else { s.feasible@ } }
+pub open spec fn at_least_as_good(sense: i32, a: F64, b: F64) -> bool { if sense == 1 { rv(a) <= rv(b) } else { rv(a) >= rv(b) } }
+'''
+
+
+def sampled_values_get_exact():
+    return Unit('SampledValues::get', S, 'get', impl=r'impl SampledValues \{', wrap=('impl SampledValues {', '}'),
+                sig='pub fn get(&self, sample_id: u64) -> Option<f64>',
+                header='''pub fn get(&self, sample_id: u64) -> (r: Option<F64>)
+    ensures
+        r == sv_get(self.entries@, 0, sample_id),
+        r is None <==> forall|i: int| 0 <= i < self.entries.len() ==> !(#[trigger] self.entries[i]).ids@.contains(sample_id),
+        r is Some ==> exists|i: int| 0 <= i < self.entries.len() && (#[trigger] self.entries[i]).ids@.contains(sample_id) && r->Some_0 == self.entries[i].value
+            && forall|j: int| 0 <= j < i ==> !(#[trigger] self.entries[j]).ids@.contains(sample_id),''',
+                loops=[dict(kind='for', it='it_1', inv='''invariant
+                forall|j: int| 0 <= j < it_1.index@ ==> !(#[trigger] self.entries[j]).ids@.contains(sample_id),
+                sv_get(self.entries@, 0, sample_id) == sv_get(self.entries@, it_1.index@ as int, sample_id),''')])
+
+
+def sample_set_objectives():
+    return Unit('SampleSet::objectives', S, 'objectives', impl=r'impl SampleSet \{', wrap=('impl SampleSet {', '}'),
+                sig='fn objectives(&self) -> Result<&SampledValues>',
+                header='''pub fn objectives(&self) -> (r: Result<&SampledValues, VErr>)
+    ensures self.objectives is Some ==> r is Ok && *r->Ok_0 == self.objectives->Some_0, self.objectives is None ==> r is Err,''')
+
+
+def sample_set_best():
+    return Unit('SampleSet::best', S, 'best', impl=r'impl SampleSet \{', wrap=('impl SampleSet {', '}'),
+                sig='fn best(&self, ids: impl Iterator<Item = u64>) -> Result<u64>',
+                header='''pub fn best(&self, ids: Vec<u64>) -> (r: Result<u64, VErr>)
+    ensures
+        // fails exactly when there is no candidate - provided the set is well formed: objectives present for every candidate, a specified sense
+        (self.objectives is Some && (forall|j: int| 0 <= j < ids.len() ==> obj_of(*self, #[trigger] ids[j]) is Some) && 0 <= self.sense < 3) ==> (r is Err <==> ids.len() == 0),
+        // the returned sample is one of the candidates ...
+        r is Ok ==> ids@.contains(r->Ok_0) && obj_of(*self, r->Ok_0) is Some,
+        // ... and no candidate beats it under the sense of the set (an unspecified sense code is treated like maximise by the code)
+        r is Ok && objs_fin(*self, ids@) ==> forall|j: int| 0 <= j < ids.len() ==> at_least_as_good(self.sense, obj_of(*self, r->Ok_0)->Some_0, obj_of(*self, #[trigger] ids[j])->Some_0),''',
+                rsubs=[(r'ids\.map\(', 'try_map_collect(ids, ', 1),
+                       (r'\)\.collect::<Result<Vec<_>, VErr>>\(\)\?;', ')?;', 1),
+                       (r'Sense::try_from\(self\.sense\)', 'sense_try_from_i32(self.sense)', 1),
+                       (r'(?s)obj\.iter\(\)\.min_by\((.*)\)\.map\((\|\(id, _\)\| \*id)\)\.vctx\(\)', r'opt_map(iter_min_by(&obj, \1), \2).vctx()', 1)],
+                closures=[dict(params='id', typed='id: u64', ret='Result<(u64, F64), VErr>',
+                               ensures='(ret is Ok <==> sv_get(objectives.entries@, 0, id) is Some), ret is Ok ==> ret->Ok_0.0 == id && Some(ret->Ok_0.1) == sv_get(objectives.entries@, 0, id)'),
+                          dict(params='(_, a), (_, b)', typed='x: &(u64, F64), y: &(u64, F64)', ret='core::cmp::Ordering', bind='let a = &x.1; let b = &y.1;',
+                               ensures='x.1@ is Fin && y.1@ is Fin ==> (!at_least_as_good(if sense == Sense::Minimize { 1i32 } else { 2i32 }, x.1, y.1) ==> ret is Greater) && (ret is Greater ==> at_least_as_good(if sense == Sense::Minimize { 1i32 } else { 2i32 }, y.1, x.1))'),
+                          dict(params='(id, _)', typed='p: &(u64, F64)', ret='u64', bind='let id = &p.0;', ensures='ret == p.0')],
+                proofs=[(('before', r'opt_map\(iter_min_by'), '''proof {
+            let sc: i32 = if sense == Sense::Minimize { 1i32 } else { 2i32 };
+            let leq0 = |x: (u64, F64), y: (u64, F64)| at_least_as_good(sc, x.1, y.1);
+            assert(transitive_on(leq0, obj@));
+            assert(*objectives == self.objectives->Some_0);
+            assert forall|j: int| 0 <= j < obj.len() implies (#[trigger] obj[j]).0 == ids[j] && Some(obj[j].1) == obj_of(*self, ids[j]) by { }
+            if objs_fin(*self, ids@) { assert forall|j: int| 0 <= j < obj.len() implies (#[trigger] obj[j]).1@ is Fin by { assert(obj_of(*self, ids[j]) is Some); } }
+            assert(self.sense == 1 <==> sense == Sense::Minimize);
+        }
+        ''')])
+
+
+def _ids(name, table):
+    return Unit('SampleSet::%s' % name, S, name, impl=r'impl SampleSet \{', wrap=('impl SampleSet {', '}'),
+                sig='pub fn %s(&self) -> BTreeSet<u64>' % name,
+                header='''pub fn %s(&self) -> (r: BTreeSet<u64>)
+    ensures forall|u: u64| #[trigger] r@.contains(u) <==> (%s.contains_key(u) && %s[u]),''' % (name, table, table),
+                rsubs=[(r'self\.%s\(\)\.iter\(\)\.filter_map\(' % ('feasible_relaxed' if name == 'feasible_ids' else 'feasible_unrelaxed'), 'hashmap_filter_map_set(self.%s(), ' % ('feasible_relaxed' if name == 'feasible_ids' else 'feasible_unrelaxed'), 1),
+                       (r'\)\.collect\(\)', ')', 1),
+                       (r'is_feasible\.then_some\(\*id\)', 'bool_then_some(*is_feasible, *id)', 1)],
+                closures=[dict(params='(id, is_feasible)', typed='e: (&u64, &bool)', ret='Option<u64>', bind='let id = e.0; let is_feasible = e.1;',
+                               ensures='ret == (if *e.1 { Some(*e.0) } else { None::<u64> })')],
+                )
+
+
+REL = 'rel_table(*self)'
+UNREL = 'unrel_table(*self)'
+
+
+def feasible_ids():
+    return _ids('feasible_ids', REL)
+
+
+def feasible_unrelaxed_ids():
+    return _ids('feasible_unrelaxed_ids', UNREL)
+
+
+def _best_id(name, idsfn, table):
+    return Unit('SampleSet::%s' % name, S, name, impl=r'impl SampleSet \{', wrap=('impl SampleSet {', '}'),
+                sig='pub fn %s(&self) -> Result<u64>' % name,
+                header='''pub fn %s(&self) -> (r: Result<u64, VErr>)
+    ensures
+        // the returned sample is feasible in the requested sense ...
+        r is Ok ==> %s.contains_key(r->Ok_0) && %s[r->Ok_0] && obj_of(*self, r->Ok_0) is Some,
+        // ... no feasible sample beats it under the sense of the set ...
+        r is Ok && (forall|u: u64| #[trigger] %s.contains_key(u) && %s[u] ==> obj_of(*self, u) is Some && obj_of(*self, u)->Some_0@ is Fin)
+            ==> forall|u: u64| #[trigger] %s.contains_key(u) && %s[u] ==> at_least_as_good(self.sense, obj_of(*self, r->Ok_0)->Some_0, obj_of(*self, u)->Some_0),
+        // ... and it fails exactly when no sample is feasible (for a well-formed set: objectives for every feasible sample, a specified sense)
+        (self.objectives is Some && 0 <= self.sense < 3 && (forall|u: u64| #[trigger] %s.contains_key(u) && %s[u] ==> obj_of(*self, u) is Some))
+            ==> (r is Err <==> forall|u: u64| #[trigger] %s.contains_key(u) ==> !%s[u]),''' % ((name,) + (table,) * 10),
+                rsubs=[(r'self\.%s\(\)\.into_iter\(\)' % idsfn, 'btreeset_into_vec(self.%s())' % idsfn, 1)],
+                proofs=[(('before', r'self\.best\('), '''let ids0 = btreeset_into_vec(self.%s());
+        proof { assert forall|j: int| 0 <= j < ids0.len() implies %s.contains_key(#[trigger] ids0[j]) && %s[ids0[j]] by { assert(ids0@.to_set().contains(ids0[j])); }
+            assert forall|u: u64| %s.contains_key(u) && %s[u] implies ids0@.contains(u) by { assert(ids0@.to_set().contains(u)); } }
+        ''' % (idsfn, table, table, table, table))],
+                post_subs=[('self.best(btreeset_into_vec(self.%s()))' % idsfn, 'self.best(ids0)')])
+
+
+def best_feasible_id():
+    return _best_id('best_feasible_id', 'feasible_ids', REL)
+
+
+def best_feasible_unrelaxed_id():
+    return _best_id('best_feasible_unrelaxed_id', 'feasible_unrelaxed_ids', UNREL)
